@@ -134,7 +134,7 @@ def run_kani(prop, tier, obs, mods, jobs, replay_dir, known_sites):
                 pb = None
                 if status == "Failure":
                     log("replaying counterexample of %s natively" % name)
-                    pb = K.playback(scratch, cfg, name, o["module"] + ".rs")
+                    pb = K.playback(scratch, cfg, name, o["module"] + ".rs", o["meta"].get("cbmc"))
                 rp = os.path.join(replay_dir, "%s.%s.json" % (o["harness"], cfg))
                 common.write_json(rp, {
                     "property": prop, "obligation": rec["name"], "engine": "kani", "config": cfg, "harness": name,
